@@ -14,7 +14,7 @@ def check(run):
     zkh = run.harness()
     indices = [0, 1, CAP // 2 - 1, CAP // 2, CAP - 1, rng.randrange(CAP)]
     limits = [1, 2, 2**16, 100]
-    n = 6 if quick else 60
+    n = 8 if quick else 80
     seqs = []
     proved = 0
     for k in range(n):
@@ -30,7 +30,7 @@ def check(run):
         setup = M.setup(others)
         root = int(core.run_impl(zkh, setup + ["rln root"])[-1], 16)
         req = rlngen.prove_request(secret, index, limit, mid, ext, signal)
-        entry = ["prove_req", "prove_wit", "prove_raw"][k % 3]
+        entry = ["prove_req", "prove_wit", "prove_raw", "prove_ext"][k % 4]
         x = int(core.run_impl(zkh, [f"h2f {hx(signal)}"])[0], 16)
         if entry == "prove_req":
             payload = req
@@ -59,5 +59,5 @@ def check(run):
               (f"rln verify_roots {hx(full)} {hx(le(rand_fr(rng), 32) + le(root, 32))}", msg)]
         seqs.append(setup + [line] + rlngen.with_oracle(zkh, lm))
     run.cov["proofs_generated"] = proved
-    run.rules.append("real end-to-end runs: leaf positions {0, 1, 2^19-1, 2^19, 2^20-1, random}, limits {1, 2, 100, 2^16}, message ids {0, limit-1}, secrets / external nullifiers in {0, 1, p-1, random}, signals of length 0/1/136/1000+, other leaves arbitrary, through generate_rln_proof, generate_rln_proof_with_witness (witness from get_serialized_rln_witness) and prove + assembled message; each message then through verify, verify_rln_proof and verify_with_roots (with the root, with a set containing it, with the empty set); distinct = distinct request")
+    run.rules.append("real end-to-end runs: leaf positions {0, 1, 2^19-1, 2^19, 2^20-1, random}, limits {1, 2, 100, 2^16}, message ids {0, limit-1}, secrets / external nullifiers in {0, 1, p-1, random}, signals of length 0/1/136/1000+, other leaves arbitrary, through generate_rln_proof, generate_rln_proof_with_witness (witness from get_serialized_rln_witness), prove + assembled message, and an externally computed witness vector fed to generate_proof_with_witness; each message then through verify, verify_rln_proof and verify_with_roots (with the root, with a set containing it, with the empty set); distinct = distinct request")
     run.differential("prove-then-verify", seqs, canon=rlngen.canon_prove, spec_canon=rlngen.spec_verdict, shrink=False)
